@@ -238,8 +238,17 @@ class Wrappers:
 
     def poll_fn_for(self, co, callee):
         m = re.match(r"^<(\{async (?:fn body|block).*\}) as ", callee)
-        want = m.group(1)
-        c = [f for k, f in self.fns.items() if k.endswith("::{closure#0}") and ("_1: Pin<&mut " + want + ">") in f.sig]
+        want = self.norm(m.group(1)[len("{async fn body of "):-1]) if m.group(1).startswith("{async fn body of ") else None
+        c = []
+        for k, f in self.fns.items():
+            if not k.endswith("::{closure#0}"):
+                continue
+            mm = re.search(r"_1: Pin<&mut (\{async (?:fn body of |block@)(.+?)\})>, _2", f.sig)
+            if not mm:
+                continue
+            if (want is not None and mm.group(1).startswith("{async fn body of ") and self.norm(mm.group(2)) == want) \
+                    or mm.group(1) == m.group(1):
+                c.append(f)
         if len(c) != 1:
             raise Unsupported("cannot locate the poll function of %s (%d)" % (want, len(c)))
         return c[0]
@@ -321,6 +330,8 @@ SPECS = {
              op="WriteVectoredAt", op_args=["fd(self)", "pos", "buf"], pipeline=["into_inner"]),
         Spec("File::write_at", r"<file::File as (?:compio_io::)?AsyncWriteAt>::write_at<T>\(\)", ["&self", "buf", "pos"],
              op="WriteAt", op_args=["fd(self)", "pos", "buf"], pipeline=["into_inner"]),
+        Spec("File::sync_all", r"file::File::sync_all\(\)", ["&self"], op="Sync", op_args=["fd(self)", "false"], pipeline=None),
+        Spec("File::sync_data", r"file::File::sync_data\(\)", ["&self"], op="Sync", op_args=["fd(self)", "true"], pipeline=None),
     ],
     "compio-net": [
         Spec("Socket::recv", r"socket::Socket::recv<\w+>\(\)", ["&self", "buf", "flags"],
@@ -341,6 +352,22 @@ SPECS = {
              op="ShutdownSocket", op_args=["fd(self)", "Write"], pipeline=None),
         Spec("&UnixStream::shutdown", r"<&unix::UnixStream as (?:compio_io::)?AsyncWrite>::shutdown\(\)", ["&&self"],
              op="ShutdownSocket", op_args=["fd(self)", "Write"], pipeline=None),
+        Spec("&TcpStream::read", r"<&tcp::TcpStream as (?:compio_io::)?AsyncRead>::read<\w+>\(\)", ["&&self", "buf"],
+             op="Recv", op_args=["fd(self)", "buf", "noflags"], pipeline=["into_inner", "map_advanced"]),
+        Spec("&TcpStream::read_vectored", r"<&tcp::TcpStream as (?:compio_io::)?AsyncRead>::read_vectored<\w+>\(\)", ["&&self", "buf"],
+             op="RecvVectored", op_args=["fd(self)", "buf", "noflags"], pipeline=["into_inner", "map_vec_advanced"]),
+        Spec("&TcpStream::write", r"<&tcp::TcpStream as (?:compio_io::)?AsyncWrite>::write<\w+>\(\)", ["&&self", "buf"],
+             op="Send", op_args=["fd(self)", "buf", "nosignal"], pipeline=["into_inner"]),
+        Spec("&TcpStream::write_vectored", r"<&tcp::TcpStream as (?:compio_io::)?AsyncWrite>::write_vectored<\w+>\(\)", ["&&self", "buf"],
+             op="SendVectored", op_args=["fd(self)", "buf", "nosignal"], pipeline=["into_inner"]),
+        Spec("&UnixStream::read", r"<&unix::UnixStream as (?:compio_io::)?AsyncRead>::read<\w+>\(\)", ["&&self", "buf"],
+             op="Recv", op_args=["fd(self)", "buf", "noflags"], pipeline=["into_inner", "map_advanced"]),
+        Spec("&UnixStream::write", r"<&unix::UnixStream as (?:compio_io::)?AsyncWrite>::write<\w+>\(\)", ["&&self", "buf"],
+             op="Send", op_args=["fd(self)", "buf", "nosignal"], pipeline=["into_inner"]),
+        Spec("UdpSocket::recv", r"udp::UdpSocket::recv<\w+>\(\)", ["&self", "buf"],
+             op="Recv", op_args=["fd(self)", "buf", "noflags"], pipeline=["into_inner", "map_advanced"]),
+        Spec("UdpSocket::send", r"udp::UdpSocket::send<\w+>\(\)", ["&self", "buf"],
+             op="Send", op_args=["fd(self)", "buf", "nosignal"], pipeline=["into_inner"]),
         Spec("WriteHalf::shutdown", r"<split::WriteHalf<'_, T> as (?:compio_io::)?AsyncWrite>::shutdown\(\)", ["&self"], delegate="shutdown"),
         Spec("WriteHalf::write", r"<split::WriteHalf<'_, T> as (?:compio_io::)?AsyncWrite>::write<\w+>\(\)", ["&self", "buf"], delegate="write"),
         Spec("ReadHalf::read", r"<split::ReadHalf<'_, T> as (?:compio_io::)?AsyncRead>::read<\w+>\(\)", ["&self", "buf"], delegate="read"),
@@ -389,6 +416,15 @@ def make_check(wr, spec):
             if want == "fd(self)":
                 ok = _name(got).endswith("to_shared_fd_1") and derived_from(got.arg(0), selft)
                 obs.append(("the operation works on the wrapper's own descriptor", z3.BoolVal(bool(ok))))
+            elif want in ("true", "false"):
+                obs.append(("flag argument is %s" % want, got == W.val(z3.BoolVal(want == "true"))))
+            elif want == "noflags":
+                # RecvFlags::empty() / SendFlags::empty(): an uninterpreted nullary call, or the literal 0
+                ok = re.search(r"empty_0$", _name(got)) is not None or str(got).startswith("lit_0_")
+                obs.append(("no extra flags are passed", z3.BoolVal(bool(ok))))
+            elif want == "nosignal":
+                # stream / datagram writes must not raise SIGPIPE: MSG_NOSIGNAL and nothing else
+                obs.append(("writes pass MSG_NOSIGNAL and no other flag", z3.BoolVal("NOSIGNAL" in str(got).upper())))
             elif want == "Write":
                 obs.append(("the shutdown direction is Write", z3.BoolVal("Write" in str(got) or str(got) == "variant1_0")))
             else:
